@@ -8,7 +8,7 @@ trap 'git -C /repo checkout -- . ; (cd /verif/harness && cargo build --release -
 (cd /verif/harness && cargo build --release --offline 2>&1 | grep -E "^error" -A8 | head -30)
 export RV_SCRATCH=/verif/.cache/scratch
 for s in "$@"; do
-  /verif/harness/target/release/rv stream $s --tier quick --seed 1 --meta /verif/.cache/tables_meta.json --out /tmp/mut_$s.json
+  /verif/harness/target/release/rv stream $s --tier ${TIER:-quick} --seed 1 --meta /verif/.cache/tables_meta.json --out /tmp/mut_$s.json
   python3 - <<PY
 import json
 r=json.load(open('/tmp/mut_$s.json'))
